@@ -136,6 +136,29 @@ impl Matcher for PermMatcher {
     }
 }
 
+/// Verification hooks: the parsed form of a `-perm` operand and the bit test.
+#[cfg(all(unix, feature = "verif-hooks"))]
+impl PermMatcher {
+    /// (0 = exact, 1 = at least, 2 = any of; file pattern; directory pattern)
+    pub fn verif_parts(&self) -> (u8, u32, u32) {
+        let kind = match self.comparison_type {
+            ComparisonType::Exact => 0,
+            ComparisonType::AtLeast => 1,
+            ComparisonType::AnyOf => 2,
+        };
+        (kind, self.file_pattern, self.dir_pattern)
+    }
+
+    pub fn verif_mode_matches(&self, is_dir: bool, mode: u32) -> bool {
+        let pattern = if is_dir {
+            self.dir_pattern
+        } else {
+            self.file_pattern
+        };
+        self.comparison_type.mode_bits_match(pattern, mode)
+    }
+}
+
 #[cfg(test)]
 #[cfg(unix)]
 mod tests {
